@@ -257,14 +257,29 @@ def call_method(engine, st, fr, recv, mname, args, kwargs, star, starkw, node):
         for r in b_future.foreign_future_method(engine, st, fr, recv, name, a, kwargs, node):
             yield r
     elif kind == "anyfuture":
-        # either a foreign future (FUT contract) or one of the library's own plain Future objects
-        for st1, own in engine.branch(st, cls_of(Val.id(recv.t)) == engine.tag("Future"), "receiver is a plain Future made by the library"):
-            if own:
-                for r in b_future.future_method(engine, st1, fr, Z(recv.t, ("inst", "Future")), name, a, kwargs, node):
-                    yield r
-            else:
-                for r in b_future.foreign_future_method(engine, st1, fr, Z(recv.t, "future"), name, a, kwargs, node):
-                    yield r
+        # a foreign future (FUT contract), or one of the futures the library itself created and handed out
+        cur = st
+        for own in [c for c in ("OutputFuture", "Future") if c in engine.repo.classes]:
+            is_own = cls_of(Val.id(recv.t)) == engine.tag(own)
+            if engine.feasible(cur, [is_own]):
+                s1 = cur.copy()
+                s1.assume(is_own)
+                s1.decisions.append(("receiver is a %s made by the library" % own, True))
+                if own == "Future":
+                    for r in b_future.future_method(engine, s1, fr, Z(recv.t, ("inst", "Future")), name, a, kwargs, node):
+                        yield r
+                else:
+                    # library futures are never RUNNING (FR: set_running_or_notify_cancel only right after a
+                    # successful cancel, under the lock)
+                    engine.touch_future(s1, Val.id(recv.t))
+                    s1.assume(s1.fstate(Val.id(recv.t)) != 1)
+                    for s2, m in engine.getattr(s1, fr, Z(recv.t, ("inst", own)), name, node):
+                        for r in engine.call(s2, fr, m, a, kwargs, star, starkw, node):
+                            yield r
+            cur.assume(z3.Not(is_own))
+        if engine.feasible(cur):
+            for r in b_future.foreign_future_method(engine, cur, fr, Z(recv.t, "future"), name, a, kwargs, node):
+                yield r
     elif kind in ("executor", "Executor", "ThreadPoolExecutor", "ProcessPoolExecutor"):
         if kind != "executor" and name == "__init__":
             yield st, None
